@@ -577,7 +577,7 @@ func init() {
 			return 96
 		}))
 	c05 := &caseCheck{id: "C05", oracle: oracleC05, nontrivial: nontrivialConc, perUnit: func(string) int { return 20 },
-		gen: genConc(concOpts{kinds: []string{"add", "add", "addif", "upsert", "updkey", "remove"}, rollbackP: 8, emptyStore: true, maxTxns: 4})}
+		gen: genConc(concOpts{kinds: []string{"add", "add", "addif", "upsert", "updkey", "remove"}, rollbackP: 8, emptyStore: true, maxTxns: 4, stagger: true})}
 	Register(c05.def("exploration",
 		"2-4 concurrent transactions calling Add/AddIfNotExist/Upsert/UpdateKey/Remove on 4-10 overlapping keys of unique-key stores (one run in five starts from an empty store: first-commit race), seeded schedules; the final warm and cold ordered scans must not contain two equal adjacent keys. distinct_nontrivial as C02",
 		func(tier string) int {
